@@ -1,5 +1,5 @@
 /-!
-  Model of lock usage by the tasks of the proxy (`tokio::sync::Mutex` / `RwLock` of the registry `alive`, of each
+  Model of lock usage by the tasks of the proxy (`tokio::sync::Mutex` / `RwLock` of the registry `alive` / `terminated`, of each
   connection `ctx_i`, of the rule list): a task is a straight-line program of lock acquisitions, releases, internal
   steps and EXTERNAL waits (a read from a client or peer that may never complete).  Every lock is treated as exclusive
   (a reader blocks a reader): this only adds blocking, so "nobody is blocked" carries over to shared read locks.
@@ -30,9 +30,10 @@ structure Task where
 def Task.held (t : Task) : List Nat := heldAfter [] (t.prog.take t.pc)
 def Task.next (t : Task) : Option Act := t.prog[t.pc]?
 
-/-- lock 0 = the registry (`alive`), lock 1 = the rule list, lock 2+i = connection i.  Order in which the code nests
-    them: registry, then a connection, then the rule list (rank 0 < 1 < 2) -/
-def rank (l : Nat) : Nat := if l = 0 then 0 else if l = 1 then 2 else 1
+/-- lock 0 = the registry's map `alive`, lock 1 = the rule list, lock 2 = the registry's history list `terminated`,
+    lock 3+i = connection i.  Order in which the code nests them: history list (the collector takes it first), then
+    `alive`, then a connection, then the rule list (rank 0 < 1 < 2 < 3) -/
+def rank (l : Nat) : Nat := if l = 2 then 0 else if l = 0 then 1 else if l = 1 then 3 else 2
 
 /-- the discipline of the repaired code: no lock is held at an external wait, locks are taken in increasing rank
     (so a task never holds two connections' locks at once), and a finished task holds nothing -/
